@@ -925,5 +925,6 @@ func busyLoops(c *core.Ctx) (int, error) {
 		}(j.src)
 	}
 	wg.Wait()
-	return n, nil
+	nb, err := bridgeBusy(c)
+	return n + nb, err
 }
